@@ -9,6 +9,12 @@ P = {
  "C03": dict(tech="runtime monitor: list model with capacity, checked after every op of exhaustive short and random sawtooth histories; raw slice length read through VerifDump",
              text="Exploration: all histories of length <=3 / <=4 over 13 growth/shrink symbols for k in 1..3 plus 20k / 1M random sawtooth histories (k in 1..6, and no/zero/negative capacity argument); "
                   "Len<=k, Cap/Avail/IsFull arithmetic, raw length and kept-earliest content compared with the model after every op.", ref="2 C03"),
+ "C07": dict(tech="runtime monitor: differential against a reference descent written over Index/Convert*/Expression, all short paths per random tree",
+             text="Exploration: 2.5k / 200k random trees (nil slots, Conditions, aliases, per-stack index options); per tree all paths of length 0..3 over [-1,5] and 600 sampled deeper ones (about 1.9M paths in quick); "
+                  "value identity and success flag compared with stepwise descent.", ref="2 C07"),
+ "C13": dict(tech="runtime monitor: list model with the no-nesting bit over random push-batch/option-switch histories; Condition expression state machine",
+             text="Exploration: 20k / 1M random histories of mixed push batches (native, alias, pointer-to-alias Stacks, Conditions, primitives, nil) interleaved with option switches, on all kinds and on Conditions; "
+                  "content identity, CanNest and IsNesting checked after every step.", ref="2 C13"),
  "C15": dict(tech="runtime monitor: exhaustive product of source/destination shapes with recursive VerifDump before/after diff",
              text="Exploration, exhaustive over the stated finite product (29k cases: lengths 0..6 x 0..6, capacity none/1..8, LIFO/FIFO, nil elements, 11 destination forms); "
                   "success implies dst0++src, capacity shortage and inert destinations imply false and an unchanged destination, the source never changes.", ref="2 C15"),
